@@ -87,15 +87,14 @@ Definition check_request (cs : cluster) (conf : list dir) (tbl : matchtable) (q 
   | DOutcome o mixed =>
       if outcome_agree q o impl then []
       else if mixed && outcome_agree q (flip_grpc o) impl then [code_known known_D33]
-      else match impl with
-           | OTLSReject => if class_D34 cs q then [code_known known_D34] else [code_violation]
-           | _ => [code_violation]
-           end
+      else (* finding D34: the HTTPS listener that owns the name has only invalid Routes and lost its own server: the handshake is
+              rejected, or a less specific listener of the port answers in its place *)
+           if class_D34 cs q then [code_known known_D34] else [code_violation]
   | DNoMatch fallback =>
       match impl with
       | OStatus 404 => if fallback then [code_known known_D24] else []
       | OTLSReject => if class_D34 cs q then [code_known known_D34] else [code_violation]
-      | _ => if fallback then [] else [code_violation]
+      | _ => if fallback then [] else if class_D34 cs q then [code_known known_D34] else [code_violation]
       end
   end.
 
